@@ -88,6 +88,40 @@ def gen(ctx):
     return out
 
 
+def to_pc(e):
+    """gate label of the recorded step -> pc value of MessagePipeline.tla (depends on the thread)"""
+    if e.get("ev") != "step":
+        return e
+    t, to = e.get("t", ""), str(e.get("to", ""))
+    if to in ("done", "start", "k_reg", "c_cancel"):
+        pc = to
+    elif to.startswith("blocked:"):
+        pc = "w_parked"
+    elif "SimpleQueue.WaitForItem:lock#1" in to:
+        pc = "w_lock"
+    elif "SimpleQueue.WaitForItem:lock#2" in to:
+        pc = "w_relock"
+    elif "SimpleQueue.WaitForItem:select" in to:
+        pc = "w_sel"
+    elif "getOrCreateDeviceCache:lock" in to:
+        pc = "G1"
+    elif "PriorityQueue.Add:lock" in to:
+        pc = "PA"
+    elif "PriorityQueue.NextAll:lock" in to:
+        pc = "PF"
+    elif "PriorityQueue.Next:lock" in to:
+        pc = "P2"
+    elif "ProcessMessageQueueForDevicePK:lock" in to:
+        pc = "P1"
+    elif "SimpleQueue.Add:lock" in to:
+        pc = {"arr": "a_lock", "loop": "FA_lock"}.get(t, "KA_lock")
+    elif "SimpleQueue.Add:selectnb" in to:
+        pc = {"arr": "a_sel", "loop": "FA_sel"}.get(t, "KA_sel")
+    else:
+        pc = "?" + to
+    return dict(e, topc=pc)
+
+
 def run(ctx, replay=None):
     rep, skel = ctx.instrument(["store_message.go", "internal/queue/simple.go", "internal/queue/priority.go"],
                                funcs={"store_message.go": FUNCS})
@@ -103,7 +137,10 @@ def run(ctx, replay=None):
     binary = ctx.go_test_compile(PKG, ov, name="pipeline", timeout=2400)
     events = ctx.run_sharded(binary, DRV, PKG, scripts, "pipeline", shards=6 if ctx.tier == "quick" else 12, chunk=400, timeout=1500)
     byid = {s["id"]: s for s in scripts}
-    acc, rejects = vf.validate_blocks(ctx, MON, events, "pipeline")
+    scs = scenarios(ctx.tier)
+    cdefs = dict(DEFS0, Scenarios="<<" + ", ".join(tla_scen(x) for x in scs) + ">>")
+    acc, rejects = vf.validate_blocks(ctx, MON, events, "pipeline", conf=("TracePipeline", "Trace_Pipeline.cfg"), defs=cdefs,
+                                      conf_consts={"ParkUnderLock": "TRUE", "SignalBuffered": "TRUE"}, conf_map=to_pc)
     ctx.evaluations += len(scripts)
     blocks = dict(vf.split_traces(events))
     distinct, nontrivial = set(), set()
